@@ -763,6 +763,8 @@ func (e *Env) RResolvePath() {
 		what:   "the vendor-stripped resolver answer, unless a declaring position (not forced), a resolver error, or the local path",
 		result: `stripVendor(` + ask + `)`,
 		cond:   `(force || !avoid[parentName+"."+parentField]) && res1(` + ask + `) == nil && (f.ResolveLocalPath || stripVendor(` + ask + `) != stripVendor(f.Path))`,
+		// an empty answer may be short-circuited: stripVendor("") is "", the default result
+		alt:    `(force || !avoid[parentName+"."+parentField]) && res1(` + ask + `) == nil && ` + ask + ` != "" && (f.ResolveLocalPath || stripVendor(` + ask + `) != stripVendor(f.Path))`,
 		assume: pre, // outside it the function panics (missing resolver, unknown role): an assertion, not a result
 	}, {
 		what: "a resolver failure is returned", result: `""`, err: "!nil",
@@ -992,7 +994,14 @@ func (e *Env) checkReturnsZ(rule string, c *schema.Ctx, fd *ast.FuncDecl, label,
 		return
 	}
 	conds := make([][]string, len(wants))
-	for _, r := range rets {
+	var extra []funcReturn
+	for ri := 0; ri < len(rets)+len(extra); ri++ {
+		var r funcReturn
+		if ri < len(rets) {
+			r = rets[ri]
+		} else {
+			r = extra[ri-len(rets)]
+		}
 		if len(r.results) != 2 {
 			e.Run.Undecided(rule, label+" returns", e.Prog.Pos(r.pos), "bare return")
 			return
@@ -1000,6 +1009,24 @@ func (e *Env) checkReturnsZ(rule string, c *schema.Ctx, fd *ast.FuncDecl, label,
 		r0, r1 := canonText(r.results[0]), canonText(r.results[1])
 		if r0 == zero && r1 == "nil" {
 			continue // the default answer: returned whenever nothing else is
+		}
+		if dead, dec := unsatWith(r.cond, "true"); dec && dead && r.cond != "" {
+			continue // unreachable facet of a split return
+		}
+		// an error *variable* (not a constructed error) may be nil at this return: the return is an
+		// error return only where the variable is non-nil, and the plain (r0, nil) return elsewhere
+		if r1 != "nil" && !strings.Contains(r1, "errors.New(") && !strings.Contains(r1, "fmt.Errorf(") {
+			base := r.cond
+			if base == "" {
+				base = "true"
+			}
+			if r0 == zero {
+				r.cond = "(" + base + ") && " + r1 + " != nil"
+			} else {
+				// a result together with a possibly-nil error: both facets are checked
+				extra = append(extra, funcReturn{cond: "(" + base + ") && " + r1 + " == nil", results: []string{r.results[0], "nil"}, pos: r.pos})
+				r.cond = "(" + base + ") && " + r1 + " != nil"
+			}
 		}
 		match := -1
 		for i, w := range wants {
@@ -1433,6 +1460,35 @@ func (e *Env) RQuietRearrange() {
 		})
 		return obj != nil && good && seen
 	}
+	// a queue of specs to add: `len(Q) > 0` where some loop over Q appends a spec per element
+	isQueueLen := func(cj string) bool {
+		m := regexp.MustCompile(`^len\((\w+)\) (> 0|!= 0)$`).FindStringSubmatch(cj)
+		if m == nil {
+			return false
+		}
+		found := false
+		ast.Inspect(fd.Body, func(n ast.Node) bool {
+			rs, ok := n.(*ast.RangeStmt)
+			if !ok {
+				return true
+			}
+			if id, ok := rs.X.(*ast.Ident); !ok || id.Name != m[1] {
+				return true
+			}
+			ast.Inspect(rs.Body, func(b ast.Node) bool {
+				if a2, ok := b.(*ast.AssignStmt); ok && len(a2.Lhs) == 1 && len(a2.Rhs) == 1 {
+					if se, ok := a2.Lhs[0].(*ast.SelectorExpr); ok && se.Sel.Name == "Specs" {
+						if cl, ok := a2.Rhs[0].(*ast.CallExpr); ok && types.ExprString(cl.Fun) == "append" {
+							found = true
+						}
+					}
+				}
+				return true
+			})
+			return true
+		})
+		return found
+	}
 	lenCmp := regexp.MustCompile(`^len\(.+\) != len\(.+\)$`)
 	n := 0
 	check := func(w ast.Node, what string) {
@@ -1452,13 +1508,13 @@ func (e *Env) RQuietRearrange() {
 			inner := splitTop(cj, " && ")
 			if len(inner) > 1 {
 				for _, x := range inner {
-					if isFlag(strings.TrimSpace(x)) || (lenCmp.MatchString(strings.TrimSpace(x)) && strings.Contains(x, ".Specs")) {
+					if isFlag(strings.TrimSpace(x)) || isQueueLen(strings.TrimSpace(x)) || (lenCmp.MatchString(strings.TrimSpace(x)) && strings.Contains(x, ".Specs")) {
 						guarded = true
 					}
 				}
 				continue
 			}
-			if isFlag(cj) || (lenCmp.MatchString(cj) && strings.Contains(cj, ".Specs")) {
+			if isFlag(cj) || isQueueLen(cj) || (lenCmp.MatchString(cj) && strings.Contains(cj, ".Specs")) {
 				guarded = true
 			}
 		}
@@ -1539,4 +1595,178 @@ func firstResultOf(info *types.Info, c *schema.Ctx, fd *ast.FuncDecl, fnObj, o t
 		return true
 	})
 	return found
+}
+
+// RAddsEveryMissing (C07): every required import that has no spec in the file gets one. The
+// statement that appends a new *dst.ImportSpec to a block sits in a loop either over the ordered
+// list of all required imports — then it runs exactly for the paths that are not in importsFound
+// (path condition equivalent to the absence test, nothing else) — or over a queue that is filled,
+// under exactly that condition, in a loop over the list of all required imports. Any further
+// condition (an alias kind, an early continue of an unrelated test) leaves an identifier without
+// its import.
+func (e *Env) RAddsEveryMissing() {
+	pkg := e.Prog.Pkg(load.PkgDecorator)
+	info := pkg.TypesInfo
+	c := e.Sib.Ctx[load.PkgDecorator]
+	fd := load.FuncDecl(pkg, "FileRestorer", "updateImports")
+	if fd == nil || fd.Body == nil {
+		return
+	}
+	undo := c.InstallReaching(fd)
+	defer undo()
+	key := "updateImports: every required import without a spec gets one"
+	// the list of all required imports: a slice filled with the keys of importsRequired
+	var all types.Object
+	ast.Inspect(fd.Body, func(n ast.Node) bool {
+		rs, ok := n.(*ast.RangeStmt)
+		if !ok {
+			return true
+		}
+		if id, ok := rs.X.(*ast.Ident); !ok || id.Name != "importsRequired" {
+			return true
+		}
+		kid, ok := rs.Key.(*ast.Ident)
+		if !ok {
+			return true
+		}
+		ast.Inspect(rs.Body, func(b ast.Node) bool {
+			as, ok := b.(*ast.AssignStmt)
+			if !ok || len(as.Lhs) != 1 || len(as.Rhs) != 1 {
+				return true
+			}
+			uses := false
+			ast.Inspect(as.Rhs[0], func(m ast.Node) bool {
+				if id, ok := m.(*ast.Ident); ok && info.Uses[id] == info.Defs[kid] {
+					uses = true
+				}
+				return true
+			})
+			if !uses {
+				return true
+			}
+			switch l := as.Lhs[0].(type) {
+			case *ast.IndexExpr:
+				if id, ok := l.X.(*ast.Ident); ok {
+					if _, isSlice := info.TypeOf(id).Underlying().(*types.Slice); isSlice {
+						all = info.Uses[id]
+					}
+				}
+			case *ast.Ident:
+				if _, isSlice := info.TypeOf(l).Underlying().(*types.Slice); isSlice {
+					all = info.Uses[l]
+				}
+			}
+			return true
+		})
+		return true
+	})
+	if all == nil {
+		e.Run.Undecided("R-ADD", key, e.Prog.Pos(fd.Pos()), "the list of all required imports (a slice filled with the keys of importsRequired) was not found")
+		return
+	}
+	// enclosing range loop of a node
+	enclosing := func(n ast.Node) *ast.RangeStmt {
+		var out *ast.RangeStmt
+		ast.Inspect(fd.Body, func(m ast.Node) bool {
+			if rs, ok := m.(*ast.RangeStmt); ok && rs.Body.Pos() <= n.Pos() && n.End() <= rs.Body.End() {
+				out = rs
+			}
+			return true
+		})
+		return out
+	}
+	exactlyMissing := func(st ast.Node, loop *ast.RangeStmt) (bool, string) {
+		vid, ok := loop.Value.(*ast.Ident)
+		if !ok {
+			return false, "loop has no element variable"
+		}
+		cond, okc := pathCond(c, loop.Body.List, st)
+		if !okc {
+			return false, "path condition not computable"
+		}
+		want := "!ok(importsFound[" + vid.Name + "])"
+		eq, dec := equivalentGuards(cond, want)
+		if !dec {
+			return false, "condition not propositional: " + cond
+		}
+		if !eq {
+			return false, "it runs under `" + cond + "`, not exactly for the paths absent from importsFound (`" + want + "`)"
+		}
+		return true, ""
+	}
+	n := 0
+	ast.Inspect(fd.Body, func(nd ast.Node) bool {
+		as, ok := nd.(*ast.AssignStmt)
+		if !ok || len(as.Lhs) != 1 || len(as.Rhs) != 1 {
+			return true
+		}
+		se, ok := as.Lhs[0].(*ast.SelectorExpr)
+		if !ok || se.Sel.Name != "Specs" {
+			return true
+		}
+		cl, ok := as.Rhs[0].(*ast.CallExpr)
+		if !ok || types.ExprString(cl.Fun) != "append" || len(cl.Args) != 2 {
+			return true
+		}
+		// the appended value is a freshly built import spec
+		if _, tn := namedOf(info.TypeOf(cl.Args[1])); tn != "ImportSpec" {
+			return true
+		}
+		loop := enclosing(as)
+		if loop == nil {
+			return true
+		}
+		n++
+		lid, _ := ast.Unparen(loop.X).(*ast.Ident)
+		switch {
+		case lid != nil && info.Uses[lid] == all:
+			good, why := exactlyMissing(as, loop)
+			e.Run.Check("R-ADD", key, e.Prog.Pos(as.Pos()), good, "the spec is appended in the loop over all required imports, but "+why+": a referenced package can stay without an import")
+		case lid != nil:
+			queue := info.Uses[lid]
+			// unconditional in the queue loop
+			cond, okc := pathCond(c, loop.Body.List, as)
+			un := okc && (cond == "" || cond == "true")
+			// every fill of the queue: in a loop over all, exactly for the missing paths
+			fills, good, why := 0, true, ""
+			ast.Inspect(fd.Body, func(m ast.Node) bool {
+				f, ok := m.(*ast.AssignStmt)
+				if !ok || len(f.Lhs) != 1 || len(f.Rhs) != 1 {
+					return true
+				}
+				fid, ok := f.Lhs[0].(*ast.Ident)
+				if !ok || info.Uses[fid] != queue {
+					return true
+				}
+				fc, ok := f.Rhs[0].(*ast.CallExpr)
+				if !ok || types.ExprString(fc.Fun) != "append" {
+					return true
+				}
+				fills++
+				fl := enclosing(f)
+				flid, _ := func() (*ast.Ident, bool) {
+					if fl == nil {
+						return nil, false
+					}
+					id, ok := ast.Unparen(fl.X).(*ast.Ident)
+					return id, ok
+				}()
+				if fl == nil || flid == nil || info.Uses[flid] != all {
+					good, why = false, "the queue "+queue.Name()+" is filled outside a loop over all required imports"
+					return true
+				}
+				if g, w := exactlyMissing(f, fl); !g {
+					good, why = false, "the queue "+queue.Name()+" is filled, but "+w
+				}
+				return true
+			})
+			e.Run.Check("R-ADD", key, e.Prog.Pos(as.Pos()), un && fills > 0 && good,
+				fmt.Sprintf("specs are appended from the queue %s (unconditionally: %v [`%s`]; fills: %d); %s: a referenced package can stay without an import", queue.Name(), un, cond, fills, why))
+		default:
+			e.Run.Undecided("R-ADD", key, e.Prog.Pos(as.Pos()), "the loop that appends import specs ranges over "+c.ExprStr(loop.X))
+		}
+		return true
+	})
+	e.Run.Analysed("import-spec additions", n)
+	e.Run.Floor("R-ADD", "import-spec additions in updateImports", n, 1)
 }
